@@ -206,6 +206,7 @@ type Bounds struct {
 	U     int  // size of the key universe (default 5)
 	Big   bool // large-set configuration: restricted sealer menu, shrinking lists
 	GenesisShrink int // large sets: the genesis header already announces a list of this size (0 = same set)
+	Start         uint64 // height of the start header (0 = 4 epochs); chosen just below a power of ten so that the chain crosses a change in the number of decimal digits of the height
 	ViaUpgrade    bool // the client is created one epoch earlier and brought to the start header by the real UpgradeClient (the announced list must become the pending one)
 	Rotate        bool // the start header announces the set with its first validator replaced by an outsider
 }
@@ -261,6 +262,9 @@ func New(b Bounds) bfs.System {
 	}
 	set = sortIdx(set)
 	g := b.Epoch * 4
+	if b.Start != 0 {
+		g = b.Start
+	}
 	announced := set
 	if b.GenesisShrink > 0 {
 		announced = sortIdx(set[len(set)-b.GenesisShrink:])
